@@ -1,3 +1,4 @@
+import ESRVerif.Model.Gather
 /-
 Bookkeeping of duplicate merging (esr/generation/utils.py, simplifier.do_sympy, duplicate_checker.main,
 simplifier.check_results), over abstract function strings.
@@ -29,6 +30,23 @@ Where Python raises (KeyError on a unique that is not a key of the sympy dict, I
 function count or a missing row, TypeError on slicing `None`) the model returns `none`.  An oracle that breaks the
 length contract of sympy_simplify (it returns its three argument lists, updated) also gives `none`: Python would raise
 IndexError if the lists grew and silently process a prefix if they shrank; the real sympy_simplify never does either.
+
+The same driver on P RANKS (section `Ranks`, strings are `String` there because `Model/Gather.makeChanges` is reused):
+* `rankBlock`                 — sympy_simplify 290-298 (= 500-508): `i = split_idx(len(all_inv_subs), rank, size)`, then
+                                 `str_fun = all_fun[i[0]:i[-1]+1]`, `inv_subs_fun = all_inv_subs[i[0]:i[-1]+1]`, or `[]`s
+* `casCallRanks`              — one call of sympy_simplify on P ranks: every rank runs the CAS (`cas`, the work between the
+                                 slicing and make_changes) on ITS block, then `make_changes` (693-694, `Model/Gather.makeChanges`
+                                 with the index arithmetic `d` read from the source) splices the per-rank lists back: all ranks
+                                 end with the same broadcast lists.  A rank beyond the data has an empty block, passes `[]`s.
+* `seqCall`                   — what that call is on ONE rank written without ranks: the CAS on the whole lists, and
+                                 (make_changes!) a chain is taken over only where the STRING changed
+* `simplifyPartRanks` … `doSympyRanks`, `dupMainRanks` — the driver above with `casCallRanks d P` for the oracle call;
+                                 everything else in do_sympy / main is computed redundantly by every rank from the broadcast
+                                 lists (`new_nuniq` is broadcast from rank 0, the files are written by rank 0).
+NOT modelled inside one call: sympy_simplify calls make_changes twice (497, 693) with two gathered "is the ± / permuted
+form already in all_fun" passes in between (555-573, 624-642) that look `all_fun` up as a whole; the model has ONE
+block-wise CAS pass followed by ONE make_changes (`PerItem` in Props/C03c is the hypothesis that makes that adequate).
+The early returns 274-278 (`max_param == 0`, empty list) are part of `cas`.
 -/
 namespace ESR.Library
 
@@ -197,6 +215,9 @@ def round (simps : Nat → Oracle σ μ) (np : σ → Nat) (maxParam : Nat) (dfl
              rounds := st.rounds ++ [{ expandFun := expandFun, checkPerm := checkPerm, allInv := r.2 }] }
   else none
 
+/-- `all_sym = [all_sym[u] for u in uniq_fun]` does not raise KeyError (the condition of `round`, named for `roundRanks`) -/
+def keysKnown (uniq0 symKeys : List σ) : Bool := uniq0.all (fun u => decide (u ∈ symKeys))
+
 /-- `while old_nuniq != new_nuniq` with at most `fuel` iterations; the flag says whether the loop condition is false at
 the end (termination is not claimed: the flag is part of the output). -/
 def loop (simps : Nat → Oracle σ μ) (np : σ → Nat) (maxParam : Nat) (dflt : σ) (expandFun : Bool) :
@@ -307,5 +328,131 @@ def dupMain (has : σ → Nat → Bool) (symp : σ → σ) (simps : Nat → Orac
         invSubs := chains.map (fun c => (cancel mp (some c)).getD []) }     -- 254-261
 
 end DoSympy
+
+/-! ## the driver on P ranks -/
+
+section Ranks
+open ESR.Partition ESR.Gather
+variable {μ : Type}
+
+/-- rank `r`'s `str_fun`, `inv_subs_fun`: the `split_idx(len(all_inv_subs), rank, size)` block of both lists -/
+def rankBlock (P r : Nat) (f : List String) (t : List (OChain μ)) : List String × List (OChain μ) :=
+  match splitIdx t.length P r with
+  | none => ([], [])
+  | some (lo, hi) => (pySlice f lo (hi + 1), pySlice t lo (hi + 1))
+
+/-- what rank `r` hands to make_changes (`sym_fun` travels with the strings) -/
+def rankLocal (P : Nat) (cas : Oracle String μ) (e c : Bool) (i : Nat) (f : List String) (t : List (OChain μ))
+    (r : Nat) : Local String (List (Entry μ)) :=
+  let b := rankBlock P r f t
+  let o := cas e c i b.1 b.2
+  { str := o.1, sym := o.1, inv := o.2 }
+
+/-- one sympy_simplify call on `P` ranks; `none` = make_changes raises -/
+def casCallRanks (d : MakeChangesDesc) (P : Nat) (cas : Oracle String μ) (e c : Bool) (i : Nat) (f : List String)
+    (t : List (OChain μ)) : Option (List String × List (OChain μ)) :=
+  (makeChanges d f f t ((List.range P).map (rankLocal P cas e c i f t))).map (fun r => (r.1, r.2.2))
+
+/-- the same call without ranks -/
+def seqCall (cas : Oracle String μ) : Oracle String μ := fun e c i f t =>
+  ((cas e c i f t).1, mergeChanged f (cas e c i f t).1 t (cas e c i f t).2)
+
+def simplifyPartRanks (d : MakeChangesDesc) (P : Nat) (cas : Oracle String μ) (expandFun checkPerm : Bool) (dflt : String)
+    (np0 : List Nat) (uniqInv : List (OChain μ)) (acc : List String × List (OChain μ)) (i : Nat) :
+    Option (List String × List (OChain μ)) :=
+  let j := partIdx np0 i
+  let f := j.map (fun m => acc.1.getD m dflt)
+  let t := j.map (fun m => uniqInv.getD m none)
+  match casCallRanks d P cas expandFun checkPerm i f t with
+  | none => none
+  | some out => if wfOut t out.1 out.2 then some (applyPart uniqInv j out.1 out.2 acc) else none
+
+def simplifyAllRanks (d : MakeChangesDesc) (P : Nat) (cas : Oracle String μ) (expandFun checkPerm : Bool) (dflt : String)
+    (np0 : List Nat) (uniqInv : List (OChain μ)) :
+    List Nat → List String × List (OChain μ) → Option (List String × List (OChain μ))
+  | [], acc => some acc
+  | i :: is, acc =>
+    match simplifyPartRanks d P cas expandFun checkPerm dflt np0 uniqInv acc i with
+    | none => none
+    | some acc' => simplifyAllRanks d P cas expandFun checkPerm dflt np0 uniqInv is acc'
+
+/-- `round` with every sympy_simplify call made on `P` ranks -/
+def roundRanks (d : MakeChangesDesc) (P : Nat) (simps : Nat → Oracle String μ) (np : String → Nat) (maxParam : Nat)
+    (dflt : String) (expandFun : Bool) (st : St String μ) : Option (St String μ) :=
+  let allInv0 : List (OChain μ) := List.replicate st.allFun.length none
+  let uniq0 := uniqueKeys st.allFun
+  if keysKnown uniq0 st.symKeys then
+    let uniqInv := uniq0.map (fun u => allInv0.getD (st.allFun.findIdx (· = u)) none)
+    let np0 := uniq0.map np
+    let checkPerm := !expandFun && st.count != 0
+    match simplifyAllRanks d P (simps st.rounds.length) expandFun checkPerm dflt np0 uniqInv (List.range (maxParam + 1))
+            (uniq0, List.replicate uniq0.length none) with
+    | none => none
+    | some (uniq', add) =>
+      let r := step3 uniq0 uniq' add dflt st.allFun allInv0
+      some { allFun := r.1
+             symKeys := uniqueKeys uniq'
+             oldN := st.newN
+             newN := (uniqueKeys r.1).length                                   -- rank 0's value, broadcast
+             count := st.count + 1
+             rounds := st.rounds ++ [{ expandFun := expandFun, checkPerm := checkPerm, allInv := r.2 }] }
+  else none
+
+def loopRanks (d : MakeChangesDesc) (P : Nat) (simps : Nat → Oracle String μ) (np : String → Nat) (maxParam : Nat)
+    (dflt : String) (expandFun : Bool) : Nat → St String μ → Option (St String μ × Bool)
+  | 0, st => some (st, st.oldN == st.newN)
+  | fuel + 1, st =>
+    if st.oldN = st.newN then some (st, true)
+    else match roundRanks d P simps np maxParam dflt expandFun st with
+      | none => none
+      | some st' => loopRanks d P simps np maxParam dflt expandFun fuel st'
+
+def doSympyRanks (d : MakeChangesDesc) (P : Nat) (simps : Nat → Oracle String μ) (np : String → Nat) (maxParam : Nat)
+    (dflt : String) (fuel : Nat) (allFun symKeys : List String) : Option (Result String μ) :=
+  let st0 : St String μ := { allFun := allFun, symKeys := symKeys, oldN := 0, newN := allFun.length, count := 0, rounds := [] }
+  match loopRanks d P simps np maxParam dflt false fuel st0 with
+  | none => none
+  | some (st1, d1) =>
+    let round1 := st1.count
+    match loopRanks d P simps np maxParam dflt true fuel { st1 with count := 0, oldN := 0 } with
+    | none => none
+    | some (st2, d2) =>
+      some { allFun := st2.allFun, keysExpand := st1.symKeys, keysFactor := st2.symKeys, nround := round1 + st2.count,
+             rounds := st2.rounds, finished := d1 && d2 }
+
+/-- `dupMain` with do_sympy on `P` ranks (the generator, initial_sympify and load_subs sides of the rank count are C13's
+`initialSympify_rank_count_irrelevant` / `loadSubs_scatter_gather`; here they are the rank-free `symp` / `cancel`). -/
+def dupMainRanks (d : MakeChangesDesc) (P : Nat) (has : String → Nat → Bool) (symp : String → String)
+    (simps : Nat → Oracle String μ) (cancel : Nat → Option (List (Entry μ)) → Option (List (Entry μ))) (dflt : String)
+    (fuelMP fuel : Nat) (gen exOrig : List String) (perm : List Nat) : Except String (MainOut String μ) :=
+  match getMaxParam has fuelMP gen with
+  | none => .error "get_max_param-fuel"
+  | some mp =>
+  if exOrig.any (fun f => !gen.contains f) then .error "KeyError-get_match_indexes" else
+  let exIdx := matchIndexes gen exOrig
+  let nextra := exOrig.length
+  let allEq := gen.map symp
+  let symKeys := uniqueKeys ((gen.take (gen.length - nextra)).map symp)
+  match inherit allEq exIdx with
+  | none => .error "IndexError-extra_orig"
+  | some allFun =>
+  match getMaxParam has fuelMP allFun with
+  | none => .error "get_max_param-fuel"
+  | some mp2 =>
+  match doSympyRanks d P simps (countParams has mp2) mp2 dflt fuel allFun symKeys with
+  | none => .error "do_sympy-raised"
+  | some res =>
+  if res.nround ≠ res.rounds.length then .error "nround" else
+  let uniq := uniqueKeys res.allFun
+  let ms := res.allFun.map (firstIndex uniq)
+  if perm.length ≠ uniq.length then .error "perm-length" else
+  let sh := shuffleRemap perm uniq ms dflt
+  match combine allFun.length (res.rounds.map (fun r => (r.idx, r.subs))) with
+  | none => .error "IndexError-combine"
+  | some chains =>
+  .ok { maxParam := mp, allEq := allEq, res := res, uniq := sh.1, matchIdx := sh.2,
+        invSubs := chains.map (fun c => (cancel mp (some c)).getD []) }
+
+end Ranks
 
 end ESR.Library
